@@ -1,7 +1,7 @@
 \* as coded: Evolution.recover takes num_generations from initial individuals
 SPECIFICATION Spec
 CONSTANTS
-  Algs = {"regevo", "hill", "hill2", "nsga2", "neat"}
+  Algs = {"regevo", "hill", "hill2", "nsga2", "neat", "sched"}
   D = 3
   N = 3
   W = 1
